@@ -1,1 +1,389 @@
-//! Facade for `socket/filter/*`.
+//! Facade for `socket/filter/*` (rate limiter, two-stage packet filter), the global permit/ban
+//! list and the exemption short-cut in `socket/recv.rs`.
+//!
+//! `socket::filter` is a private module and the fields of `Quota`, `Limiter` and `RateLimiter`
+//! are private to `rate_limiter`.  To stay add-only (no other file of the crate is touched) the
+//! two source files are compiled a second time *into this facade*:
+//!
+//! * `rate_limiter.rs` is `include!`d, so the helpers below live in the same module as the
+//!   included items and may build a `Quota`, call `Limiter::{from_quota, allows, prune}` with
+//!   explicit times and read `tat_per_key`;
+//! * `filter/mod.rs` (with its sub-modules `cache`, `config`, `rate_limiter`) is mounted with
+//!   `#[path]`, which gives access to `Filter::{new, initial_pass, final_pass, prune_limiter}`.
+//!
+//! Both copies are the very source text the crate uses (any edit of those files changes both).
+//! The exemption short-cut is exercised on the crate's own `RecvHandler::handle_inbound` through
+//! the virtual receive handler (`RecvHandler::spawn_virtual`), the ban-expiry sweep on the crate's
+//! own `Handler` main loop (`Handler::spawn_virtual`, paused tokio clock advanced by the harness).
+
+use crate::{discv5::PERMIT_BAN_LIST, node_info::NodeAddress, packet::Packet, ProtocolIdentity};
+use enr::NodeId;
+use std::{
+    net::{IpAddr, SocketAddr},
+    time::{Duration, Instant},
+};
+
+// ------------------------------------------------------------------------------------------
+// rate_limiter.rs, second copy with private access
+
+#[allow(dead_code, unused_imports, clippy::all)]
+mod rl_src {
+    include!("../socket/filter/rate_limiter.rs");
+
+    /// Builds the private `Quota`.
+    pub fn verif_quota(max_tokens: u64, replenish_all_every: Duration) -> Quota {
+        Quota {
+            replenish_all_every,
+            max_tokens,
+        }
+    }
+
+    impl<Key: Hash + Eq + Clone + Ord> Limiter<Key> {
+        /// `(tau, t)`.
+        pub fn verif_params(&self) -> (u64, u64) {
+            (self.tau, self.t)
+        }
+
+        /// The TAT table, sorted by key.
+        pub fn verif_dump(&self) -> Vec<(Key, u64)> {
+            let mut v: Vec<(Key, u64)> = self
+                .tat_per_key
+                .iter()
+                .map(|(k, tat)| (k.clone(), *tat))
+                .collect();
+            v.sort();
+            v
+        }
+    }
+}
+
+/// Outcome of `Limiter::allows`.
+#[derive(Debug, Clone, Copy, PartialEq, Eq)]
+pub enum Verdict {
+    Ok,
+    TooLarge,
+    /// The wait reported by `RateLimitedErr::TooSoon`, in nanoseconds.
+    TooSoon(u128),
+}
+
+/// A `Limiter<u64>` driven with explicit times.
+#[derive(Clone)]
+pub struct KeyLimiter(rl_src::Limiter<u64>);
+
+impl KeyLimiter {
+    /// `Limiter::from_quota(Quota { replenish_all_every, max_tokens })`.
+    pub fn from_quota(max_tokens: u64, replenish_all_every: Duration) -> Result<Self, &'static str> {
+        rl_src::Limiter::from_quota(rl_src::verif_quota(max_tokens, replenish_all_every)).map(KeyLimiter)
+    }
+
+    /// `Limiter::allows(time_since_start, &key, tokens)`.
+    pub fn allows(&mut self, time_since_start: Duration, key: u64, tokens: u64) -> Verdict {
+        match self.0.allows(time_since_start, &key, tokens) {
+            Ok(()) => Verdict::Ok,
+            Err(rl_src::RateLimitedErr::TooLarge) => Verdict::TooLarge,
+            Err(rl_src::RateLimitedErr::TooSoon(d)) => Verdict::TooSoon(d.as_nanos()),
+        }
+    }
+
+    /// `Limiter::prune(time_limit)`.
+    pub fn prune(&mut self, time_limit: Duration) {
+        self.0.prune(time_limit)
+    }
+
+    /// `(tau, t)` in nanoseconds.
+    pub fn params(&self) -> (u64, u64) {
+        self.0.verif_params()
+    }
+
+    /// The TAT table sorted by key.
+    pub fn dump(&self) -> Vec<(u64, u64)> {
+        self.0.verif_dump()
+    }
+}
+
+// ------------------------------------------------------------------------------------------
+// filter/mod.rs, second copy (public items only)
+
+#[path = "../socket/filter/mod.rs"]
+#[allow(dead_code, unused_imports, clippy::all)]
+mod filter_src;
+
+/// A quota `n` tokens every `period` (the `*_n_every` builder functions).
+pub type QuotaSpec = Option<(u64, Duration)>;
+
+/// The packet filter (`socket::filter::Filter`), built like `RecvHandler::spawn` builds it.
+pub struct PacketFilter(filter_src::Filter);
+
+fn build_rate_limiter<B>(
+    new: impl FnOnce() -> B,
+    total: impl FnOnce(B, u64, Duration) -> B,
+    node: impl FnOnce(B, u64, Duration) -> B,
+    ip: impl FnOnce(B, u64, Duration) -> B,
+    quotas: (QuotaSpec, QuotaSpec, QuotaSpec),
+) -> B {
+    let mut b = new();
+    if let Some((n, p)) = quotas.0 {
+        b = total(b, n, p);
+    }
+    if let Some((n, p)) = quotas.1 {
+        b = node(b, n, p);
+    }
+    if let Some((n, p)) = quotas.2 {
+        b = ip(b, n, p);
+    }
+    b
+}
+
+impl PacketFilter {
+    /// `Filter::new(FilterConfig { enabled, rate_limiter, max_nodes_per_ip, max_bans_per_ip },
+    /// ban_duration)`.  `limiter = None` is a filter without rate limiter; otherwise the three
+    /// quotas (total, node, ip) go through `RateLimiterBuilder::{total,node,ip}_n_every`.
+    pub fn new(
+        enabled: bool,
+        limiter: Option<(QuotaSpec, QuotaSpec, QuotaSpec)>,
+        max_nodes_per_ip: Option<usize>,
+        max_bans_per_ip: Option<usize>,
+        ban_duration: Option<Duration>,
+    ) -> Result<Self, &'static str> {
+        use filter_src::rate_limiter::RateLimiterBuilder as B;
+        let rate_limiter = match limiter {
+            None => None,
+            Some(q) => Some(
+                build_rate_limiter(B::new, B::total_n_every, B::node_n_every, B::ip_n_every, q)
+                    .build()?,
+            ),
+        };
+        let config = filter_src::FilterConfig {
+            enabled,
+            rate_limiter,
+            max_nodes_per_ip,
+            max_bans_per_ip,
+        };
+        Ok(PacketFilter(filter_src::Filter::new(config, ban_duration)))
+    }
+
+    /// `Filter::initial_pass`.
+    pub fn initial_pass(&mut self, src: &SocketAddr) -> bool {
+        self.0.initial_pass(src)
+    }
+
+    /// `Filter::final_pass` with a random message packet of `node_id`.
+    pub fn final_pass(&mut self, src: SocketAddr, node_id: NodeId) -> bool {
+        let packet = Packet::new_random(&node_id, ProtocolIdentity::default()).expect("packet");
+        let node_address = NodeAddress {
+            socket_addr: src,
+            node_id,
+        };
+        self.0.final_pass(&node_address, &packet)
+    }
+
+    /// `Filter::prune_limiter`.
+    pub fn prune_limiter(&mut self) {
+        self.0.prune_limiter()
+    }
+}
+
+/// The crate's public `RateLimiter` with the same quotas (used for the receive-handler path).
+pub fn public_rate_limiter(
+    quotas: (QuotaSpec, QuotaSpec, QuotaSpec),
+) -> Result<crate::RateLimiter, &'static str> {
+    use crate::RateLimiterBuilder as B;
+    build_rate_limiter(B::new, B::total_n_every, B::node_n_every, B::ip_n_every, quotas).build()
+}
+
+// ------------------------------------------------------------------------------------------
+// the global permit/ban list
+
+/// Snapshot of `PERMIT_BAN_LIST`, everything sorted.
+#[derive(Debug, Clone, Default, PartialEq, Eq)]
+pub struct PermitBanSnapshot {
+    pub permit_ips: Vec<IpAddr>,
+    pub ban_ips: Vec<(IpAddr, Option<Instant>)>,
+    pub permit_nodes: Vec<NodeId>,
+    pub ban_nodes: Vec<(NodeId, Option<Instant>)>,
+}
+
+pub fn permit_ban_snapshot() -> PermitBanSnapshot {
+    let l = PERMIT_BAN_LIST.read();
+    let mut s = PermitBanSnapshot {
+        permit_ips: l.permit_ips.iter().copied().collect(),
+        ban_ips: l.ban_ips.iter().map(|(k, v)| (*k, *v)).collect(),
+        permit_nodes: l.permit_nodes.iter().copied().collect(),
+        ban_nodes: l.ban_nodes.iter().map(|(k, v)| (*k, *v)).collect(),
+    };
+    s.permit_ips.sort();
+    s.ban_ips.sort();
+    s.permit_nodes.sort_by_key(|n| n.raw());
+    s.ban_nodes.sort_by_key(|(n, _)| n.raw());
+    s
+}
+
+/// `*PERMIT_BAN_LIST.write() = PermitBanList::default()`.
+pub fn permit_ban_reset() {
+    *PERMIT_BAN_LIST.write() = crate::PermitBanList::default();
+}
+
+/// What `Discv5::permit_ip` does.
+pub fn permit_ip(ip: IpAddr) {
+    PERMIT_BAN_LIST.write().permit_ips.insert(ip);
+}
+
+/// What `Discv5::permit_node` does.
+pub fn permit_node(node_id: NodeId) {
+    PERMIT_BAN_LIST.write().permit_nodes.insert(node_id);
+}
+
+/// What `Discv5::ban_ip` does.
+pub fn ban_ip(ip: IpAddr, duration_of_ban: Option<Duration>) {
+    let time_to_unban = duration_of_ban.map(|v| Instant::now() + v);
+    PERMIT_BAN_LIST.write().ban_ips.insert(ip, time_to_unban);
+}
+
+/// What `Discv5::ban_node` does to the list.
+pub fn ban_node(node_id: NodeId, duration_of_ban: Option<Duration>) {
+    let time_to_unban = duration_of_ban.map(|v| Instant::now() + v);
+    PERMIT_BAN_LIST
+        .write()
+        .ban_nodes
+        .insert(node_id, time_to_unban);
+}
+
+// ------------------------------------------------------------------------------------------
+// the receive path (`RecvHandler::handle_inbound`) over the virtual socket
+
+/// What came out of `RecvHandler::handle_inbound` for one datagram.
+#[derive(Debug, Clone, Copy, PartialEq, Eq)]
+pub enum RecvOutcome {
+    /// Nothing was handed to the handler.
+    Dropped,
+    /// `RecvPacket::UnrecognizedFrame`.
+    Unrecognized,
+    /// `RecvPacket::Inbound`.
+    Inbound,
+}
+
+/// A `RecvHandler` fed from a channel (the crate's `RecvHandler::spawn_virtual` hook): every
+/// injected datagram goes through the unmodified `handle_inbound`.
+pub struct VirtualRecv {
+    inject: tokio::sync::mpsc::Sender<(SocketAddr, Vec<u8>)>,
+    out: tokio::sync::mpsc::Receiver<crate::socket::recv::RecvPacket>,
+    _exit: tokio::sync::oneshot::Sender<()>,
+    pub expected_responses:
+        std::sync::Arc<parking_lot::RwLock<std::collections::HashMap<SocketAddr, usize>>>,
+    local_id: NodeId,
+}
+
+impl VirtualRecv {
+    /// Must be called inside a tokio runtime (binds one unused loopback socket).
+    pub async fn new(
+        enabled: bool,
+        limiter: Option<(QuotaSpec, QuotaSpec, QuotaSpec)>,
+        max_nodes_per_ip: Option<usize>,
+        max_bans_per_ip: Option<usize>,
+        ban_duration: Option<Duration>,
+        local_id: NodeId,
+    ) -> Result<Self, String> {
+        let rate_limiter = match limiter {
+            None => None,
+            Some(q) => Some(public_rate_limiter(q).map_err(|e| e.to_string())?),
+        };
+        let filter_config = crate::socket::FilterConfig {
+            enabled,
+            rate_limiter,
+            max_nodes_per_ip,
+            max_bans_per_ip,
+        };
+        let expected_responses = std::sync::Arc::new(parking_lot::RwLock::new(
+            std::collections::HashMap::new(),
+        ));
+        let dummy = std::sync::Arc::new(
+            tokio::net::UdpSocket::bind((std::net::Ipv4Addr::LOCALHOST, 0))
+                .await
+                .map_err(|e| e.to_string())?,
+        );
+        let (inject, inject_rx) = tokio::sync::mpsc::channel(64);
+        let config = crate::socket::recv::RecvHandlerConfig {
+            filter_config,
+            ban_duration,
+            executor: Box::<crate::TokioExecutor>::default(),
+            recv: dummy,
+            second_recv: None,
+            local_node_id: local_id,
+            protocol_identity: ProtocolIdentity::default(),
+            expected_responses: expected_responses.clone(),
+        };
+        let (out, exit) = crate::socket::recv::RecvHandler::spawn_virtual(config, inject_rx)
+            .await
+            .map_err(|e| e.to_string())?;
+        Ok(VirtualRecv {
+            inject,
+            out,
+            _exit: exit,
+            expected_responses,
+            local_id,
+        })
+    }
+
+    /// A datagram holding a random message packet from `src_id`, encoded for the local node.
+    pub fn message_datagram(&self, src_id: NodeId) -> Vec<u8> {
+        Packet::new_random(&src_id, ProtocolIdentity::default())
+            .expect("packet")
+            .encode(&self.local_id)
+    }
+
+    /// A datagram holding a WHOAREYOU packet (no source id), encoded for the local node.
+    pub fn whoareyou_datagram(&self) -> Vec<u8> {
+        Packet::new_whoareyou([7; 12], [9; 16], ProtocolIdentity::default(), 1).encode(&self.local_id)
+    }
+
+    /// Delivers one datagram and reports what `handle_inbound` did with it.  `barrier` must be
+    /// a socket address that is registered in `expected_responses` for the duration of the call
+    /// (a garbage datagram from it is used to learn that the first one has been processed).
+    pub async fn deliver(&mut self, src: SocketAddr, data: Vec<u8>, barrier: SocketAddr) -> Option<RecvOutcome> {
+        use crate::socket::recv::RecvPacket;
+        self.inject.send((src, data)).await.ok()?;
+        self.inject.send((barrier, vec![0u8; 3])).await.ok()?;
+        let mut outcome = RecvOutcome::Dropped;
+        loop {
+            match self.out.recv().await? {
+                RecvPacket::UnrecognizedFrame(f) if f.src_address == barrier && f.packet.len() == 3 => {
+                    return Some(outcome)
+                }
+                RecvPacket::UnrecognizedFrame(_) => outcome = RecvOutcome::Unrecognized,
+                RecvPacket::Inbound(_) => outcome = RecvOutcome::Inbound,
+            }
+        }
+    }
+}
+
+// ------------------------------------------------------------------------------------------
+// the ban-expiry sweep (`Handler::unban_nodes_check`, run by the handler's main loop)
+
+/// Spawns a real `Handler` over the virtual socket.  Its main loop runs `unban_nodes_check` on
+/// a tokio interval (first tick at once, then every `BANNED_NODES_CHECK` seconds); a harness
+/// with a paused tokio clock triggers the sweep by advancing the clock.  The returned value
+/// keeps the handler alive.
+pub async fn spawn_sweeping_handler() -> Result<Box<dyn std::any::Any>, String> {
+    use std::sync::Arc;
+    let key = enr::CombinedKey::generate_secp256k1();
+    let local_enr = crate::Enr::builder()
+        .ip4(std::net::Ipv4Addr::LOCALHOST)
+        .udp4(9)
+        .build(&key)
+        .map_err(|e| format!("{e:?}"))?;
+    let mut config = crate::ConfigBuilder::new(crate::ListenConfig::default()).build();
+    // The filter of this handler is never fed; keep it inert.
+    config.enable_packet_filter = false;
+    let r = crate::handler::Handler::spawn_virtual(
+        Arc::new(parking_lot::RwLock::new(local_enr)),
+        Arc::new(parking_lot::RwLock::new(key)),
+        config,
+        vec![],
+    )
+    .await
+    .map_err(|e| e.to_string())?;
+    Ok(Box::new(r))
+}
+
+/// Period of the handler's ban sweep in seconds (`BANNED_NODES_CHECK`).
+pub const SWEEP_PERIOD_SECS: u64 = 300;
